@@ -102,6 +102,8 @@ type Interp struct {
 	pcSet                map[int]bool
 	fixedLog             []WitnessChoice
 	lenient              int
+	byteDom              map[string]*[4]uint64
+	entangled            map[string]bool
 	synHits              int
 	setups               map[string]Value
 	rng                  *rand.Rand
@@ -148,6 +150,8 @@ func (in *Interp) resetPath() {
 	in.f2iSrc = map[int]*Term{}
 	in.pcSet = map[int]bool{}
 	in.fixedLog = nil
+	in.byteDom = map[string]*[4]uint64{}
+	in.entangled = map[string]bool{}
 }
 
 func isRepoPkgPath(p string) bool {
@@ -693,6 +697,7 @@ func (in *Interp) addPC(t *Term) {
 	}
 	in.pc = append(in.pc, t)
 	in.pcSet[t.id] = true
+	in.narrowBytes(t)
 	if in.model != nil && !in.holds(t) {
 		in.model = nil
 	}
@@ -729,6 +734,10 @@ func (in *Interp) feasible(c *Term) string {
 				return "unsat"
 			}
 		}
+	}
+	if r := in.byteFeasible(c); r != "" {
+		in.synHits++
+		return r
 	}
 	if in.holds(c) {
 		in.modelHits++
@@ -907,4 +916,89 @@ func sortedKeys(m map[string]bool) []string {
 	}
 	sort.Strings(out)
 	return out
+}
+
+// ---- exact domains for independent symbolic bytes
+//
+// A BV8 input constrained only by single-variable conditions is tracked as a
+// 256-bit set of admissible values; feasibility of a further single-variable
+// condition is then decided by evaluation over that set (exact, no solver).
+
+func singleByteVar(t *Term) (*Term, int) {
+	vars := map[string]*Term{}
+	t.Vars(map[int]bool{}, vars)
+	if len(vars) != 1 {
+		return nil, len(vars)
+	}
+	for _, v := range vars {
+		if v.sort == SBV(8) {
+			return v, 1
+		}
+	}
+	return nil, 1
+}
+
+func (in *Interp) narrowBytes(t *Term) {
+	v, n := singleByteVar(t)
+	if v == nil {
+		if n > 1 {
+			vars := map[string]*Term{}
+			t.Vars(map[int]bool{}, vars)
+			for name, x := range vars {
+				if x.sort == SBV(8) {
+					in.entangled[name] = true
+				}
+			}
+		}
+		return
+	}
+	dom := in.byteDom[v.name]
+	if dom == nil {
+		dom = &[4]uint64{^uint64(0), ^uint64(0), ^uint64(0), ^uint64(0)}
+		in.byteDom[v.name] = dom
+	}
+	m := map[string]uint64{}
+	for x := 0; x < 256; x++ {
+		if dom[x/64]&(1<<uint(x%64)) == 0 {
+			continue
+		}
+		m[v.name] = uint64(x)
+		if r, ok := t.Eval(m, map[int]uint64{}); !ok {
+			in.entangled[v.name] = true // not evaluable: leave it to the solver
+			return
+		} else if r != 1 {
+			dom[x/64] &^= 1 << uint(x%64)
+		}
+	}
+}
+
+func (in *Interp) byteFeasible(c *Term) string {
+	v, _ := singleByteVar(c)
+	if v == nil || in.entangled[v.name] {
+		return ""
+	}
+	dom := in.byteDom[v.name]
+	m := map[string]uint64{}
+	for x := 0; x < 256; x++ {
+		if dom != nil && dom[x/64]&(1<<uint(x%64)) == 0 {
+			continue
+		}
+		m[v.name] = uint64(x)
+		r, ok := c.Eval(m, map[int]uint64{})
+		if !ok {
+			return ""
+		}
+		if r == 1 {
+			if in.model != nil {
+				nm := make(map[string]uint64, len(in.model)+1)
+				for k, val := range in.model {
+					nm[k] = val
+				}
+				nm[v.name] = uint64(x)
+				in.altModel = nm
+			}
+			return "sat"
+		}
+	}
+	return "unsat"
 }
